@@ -708,12 +708,12 @@ def run(ctx):
     ctx.assume("numpy / math primitives (log, exp, log1p, lgamma, linspace, sum, max, isinf) behave as documented; numba compiles the jitted functions with Python semantics")
     ctx.assume("pandas .at[row, column] reads the named column of the named row; value_counts / set_index(...).to_dict() build the per-cluster tables (pandas semantics are not decided here)")
     ctx.note("log_factorial, log_binomial_coefficient and log_beta are recorded under both E2 and M (one specification, two rule ids)")
-    rule_E1(ctx)
-    rule_E2_M(ctx)
-    rule_E3(ctx)
-    rule_E4(ctx)
-    rule_E5(ctx)
-    rule_E6(ctx)
+    ctx.soft(rule_E1)
+    ctx.soft(rule_E2_M)
+    ctx.soft(rule_E3)
+    ctx.soft(rule_E4)
+    ctx.soft(rule_E5)
+    ctx.soft(rule_E6)
 
 
 # --------------------------------------------------------------------------- self-test catalogue
